@@ -1,15 +1,203 @@
 package main
 
 import (
+	"fmt"
 	"reflect"
+	"sort"
+	"strings"
 )
 
 func init() {
 	corrs["C20"] = func(outDir string, seed uint64, tier string, replay string) *report {
-		return corrCodec("C20", outDir, seed, tier, true)
+		rep := corrCodec("C20", outDir, seed, tier, true)
+		rep.Rule = "for every accepted canonical marshalling of the C10 generator's types (and the shipped structs): every string at edit distance 1 under a class alphabet plus structural splices is unmarshalled; outcome (all leaf values or projected error) vs the Coq model; for every ACCEPTED string the property oracle re-marshals the returned value and requires the two strings to carry the same value texts up to the tolerated respellings (one trailing delimiter, integer spelling, group order, explicit empty/zero optional). " + rep.Rule
+		return rep
 	}
 }
 
-// editCases is filled in by the C20 work; placeholder keeps C10 building.
+// valueTexts splits a hash string into its value texts (prefix kept as one text), normalised for the
+// tolerated respellings: lower case, integer-looking texts (optional key, optional sign) without leading zeros.
+func valueTexts(s string) []string {
+	var out []string
+	pre := ""
+	body := s
+	if strings.HasPrefix(s, "$") {
+		if i := strings.IndexAny(s[1:], "$,"); i > 0 {
+			pre, body = s[:i+2], s[i+2:]
+		}
+	} else if strings.HasPrefix(s, "_") {
+		pre, body = "_", s[1:]
+	}
+	if pre != "" {
+		out = append(out, "P:"+pre)
+	}
+	if strings.HasSuffix(body, "$") || strings.HasSuffix(body, ",") {
+		body = body[:len(body)-1]
+	}
+	for _, frag := range strings.Split(body, "$") {
+		for _, v := range strings.Split(frag, ",") {
+			out = append(out, normText(v))
+		}
+	}
+	return out
+}
+
+func normText(v string) string {
+	key := ""
+	if i := strings.IndexByte(v, '='); i >= 0 {
+		key, v = v[:i+1], v[i+1:]
+	}
+	l := strings.ToLower(v)
+	sign := ""
+	if strings.HasPrefix(l, "-") || strings.HasPrefix(l, "+") {
+		if l[0] == '-' {
+			sign = "-"
+		}
+		l = l[1:]
+	}
+	alnum := l != ""
+	for i := 0; i < len(l); i++ {
+		c := l[i]
+		if !(c >= '0' && c <= '9' || c >= 'a' && c <= 'z') {
+			alnum = false
+		}
+	}
+	if alnum {
+		t := strings.TrimLeft(l, "0")
+		if t == "" {
+			t = "0"
+			sign = ""
+		}
+		return key + sign + t
+	}
+	return key + strings.ToLower(v)
+}
+
+// sameUpToRespelling: the value texts of the accepted string e and of the canonical re-marshalling c agree as
+// multisets, except that e may carry explicitly written empty / zero optional values that c omits.
+func sameUpToRespelling(e, c string) (bool, string) {
+	te, tc := valueTexts(e), valueTexts(c)
+	cnt := map[string]int{}
+	for _, t := range tc {
+		cnt[t]++
+	}
+	var extra []string
+	for _, t := range te {
+		if cnt[t] > 0 {
+			cnt[t]--
+		} else {
+			extra = append(extra, t)
+		}
+	}
+	for t, n := range cnt {
+		if n > 0 && t != "" {
+			return false, fmt.Sprintf("canonical text %q is not in the accepted string", t)
+		}
+	}
+	for _, t := range extra {
+		v := t
+		if i := strings.IndexByte(t, '='); i >= 0 {
+			v = t[i+1:]
+		}
+		if !(v == "" || v == "0") {
+			return false, fmt.Sprintf("text %q of the accepted string is not in the canonical marshalling", t)
+		}
+	}
+	return true, ""
+}
+
+const c20Alpha = "$,=_09aA"
+
 func editCases(rep *report, r *rng, tc codecCase, s string, unmarshalCase func(codecCase, string, string) (reflect.Value, error, interface{})) {
+	if len(s) > 90 || rep.Distribution["edit_bases"] != nil && rep.Distribution["edit_bases"].(int) >= rep.Distribution["edit_budget"].(int) {
+		return
+	}
+	rep.bump("edit_bases")
+	seen := map[string]bool{s: true}
+	try := func(e, kind string) {
+		if seen[e] {
+			return
+		}
+		seen[e] = true
+		q, err, pan := unmarshalCase(tc, e, kind)
+		if pan != nil {
+			if !strings.Contains(fmt.Sprint(pan), "indirection through nil pointer to embedded struct") {
+				rep.fail(map[string]interface{}{"type": tc.t.String(), "hash": e}, "no panic", fmt.Sprint(pan), "Unmarshal panics")
+			} else {
+				rep.OracleFailures = append(rep.OracleFailures, oracleFailure{Input: tc.t.String(), Expected: "no panic", Observed: fmt.Sprint(pan), Note: "Unmarshal panics on a nil embedded pointer-to-struct", Sig: "D10-embedded-nil-pointer"})
+			}
+			return
+		}
+		if err != nil {
+			return
+		}
+		rep.bump("edit_accepted_" + kind)
+		c, merr, mpan := marshalObs(q.Interface())
+		if merr != nil || mpan != nil {
+			// the value Unmarshal returned is not one Marshal would write: only possible for text types / prefixes the
+			// layout cannot re-emit; reported when the layout is in the class
+			if tc.class {
+				rep.fail(map[string]interface{}{"type": tc.t.String(), "accepted": e}, "Marshal accepts the value Unmarshal returned", fmt.Sprint(merr, mpan), "accepted string has no canonical marshalling")
+			}
+			return
+		}
+		// the oracle speaks for layouts in the unambiguous class and for the shipped structs (outside it the
+		// textual ambiguities of DESIGN.md 5.2 apply; those strings are still compared with the model)
+		if !(tc.class || strings.HasPrefix(tc.tname, "S")) {
+			return
+		}
+		if ok, why := sameUpToRespelling(e, c); !ok {
+			rep.fail(map[string]interface{}{"type": tc.t.String(), "accepted": e, "canonical": c}, "equal up to the tolerated respellings", why, "Unmarshal accepted a string that is not a respelling of what Marshal writes")
+		}
+	}
+	for i := 0; i <= len(s); i++ {
+		for k := 0; k < len(c20Alpha); k++ {
+			try(s[:i]+string(c20Alpha[k])+s[i:], "insert")
+		}
+		if i < len(s) {
+			try(s[:i]+s[i+1:], "delete")
+			for k := 0; k < len(c20Alpha); k++ {
+				try(s[:i]+string(c20Alpha[k])+s[i+1:], "substitute")
+			}
+		}
+	}
+	// structural splices
+	try("$x$"+s, "splice_prefix")
+	try("_"+s, "splice_prefix")
+	if i := strings.IndexAny(s[minInt(1, len(s)):], "$,"); strings.HasPrefix(s, "$") && i > 0 {
+		try(s[i+2:], "splice_noprefix")
+		try(s[:i+2]+s, "splice_dupprefix")
+	}
+	frs := strings.Split(s, "$")
+	if len(frs) >= 2 {
+		sw := append([]string(nil), frs...)
+		sw[len(sw)-1], sw[len(sw)-2] = sw[len(sw)-2], sw[len(sw)-1]
+		try(strings.Join(sw, "$"), "splice_swap")
+	}
+	try(s+"$junk", "splice_junk")
+	try(s+"$j=1,k=2", "splice_junkgroup")
+	try(s+"$", "trailing")
+	try(s+",", "trailing")
+	try(s+"$$", "trailing2")
+	if i := strings.IndexByte(s, '='); i > 0 {
+		try(s[:i]+s[i+1:], "splice_noeq")
+		j := strings.LastIndexAny(s[:i], "$,")
+		try(s[:j+1]+s[i+1:], "splice_nokey")
+		try(s[:i]+"x"+s[i:], "splice_longkey")
+		if i-j > 2 {
+			try(s[:i-1]+s[i:], "splice_shortkey")
+		}
+		// duplicate the parameter
+		end := i + strings.IndexAny(s[i:]+"$", "$,")
+		try(s[:end]+","+s[j+1:end]+s[end:], "splice_dupparam")
+	}
+	if i := strings.IndexByte(s, ','); i > 0 {
+		try(s[:i]+"$"+s[i+1:], "splice_splitgroup")
+		// reorder group members
+		lo := strings.LastIndexByte(s[:i], '$') + 1
+		hi := i + strings.IndexByte(s[i:]+"$", '$')
+		ms := strings.Split(s[lo:hi], ",")
+		sort.Sort(sort.Reverse(sort.StringSlice(ms)))
+		try(s[:lo]+strings.Join(ms, ",")+s[hi:], "group_reorder")
+	}
 }
